@@ -12,6 +12,10 @@ def check(ix, rep):
         if m.mode == 'offline':
             npure += pure.pure_handlers(ix, rep, m)
     rep.floor('offline handlers checked for state carried between evaluations', npure, 60)
+    from sa.rules import memo
+    for m in M.standard_monitors(ix):
+        if m.mode == 'offline':
+            memo.check_offline_memo_renewed(ix, rep, m)
     nrs = pure.check_reflective_state(ix, rep)
     rep.floor('functions checked for reflectively reached object state', nrs, 700)
     nfix = G.fixture_selfcheck(rep)
